@@ -52,7 +52,7 @@ class Runner:
     """Runs executions of `bodies` under given choice prefixes.  The worker
     threads are created once and reused for every execution."""
 
-    def __init__(self, bodies, setup=None, teardown=None, max_points=20000):
+    def __init__(self, bodies, setup=None, teardown=None, max_points=400000):
         self.bodies = bodies
         self.setup, self.teardown = setup, teardown
         self.dir = _pamqp_dir()
